@@ -35,6 +35,7 @@ class Ctx:
         self.trusted: list[str] = []
         self.ties: dict = {}
         self.observations: list[str] = []
+        self.boost = 1
 
     @property
     def quick(self) -> bool:
@@ -199,6 +200,7 @@ def main(argv=None) -> int:
     info: dict = {}
     try:
         info = build_property(ctx, getattr(mod, "EXTRA_TARGETS", None))
+        ctx.boost = 1 if info.get("make_ok") else 3          # something of this property no longer checks: the searches repeat more to find the failing input
         mod.run(ctx, info)
     except Exception:
         ctx.broke("harness-exception", traceback.format_exc())
